@@ -237,6 +237,63 @@ Definition handle (cf : config) (s : state) (self from : node) (a : advert)
   end.
 
 (* ------------------------------------------------------------------ *)
+(** ** ROUTE_WITHDRAW: WithdrawLocalRoutes, HandleRouteWithdraw, floodWithdrawal
+
+    A withdrawal has no path on the wire; in the bag of in-flight frames it is
+    an [advert] whose path is empty (no advertisement ever has an empty path).
+    It shares the seen cache (same key: origin and sequence) and the origin's
+    sequence counter with advertisements, is not subject to the hop limit,
+    removes the origin's CIDR routes for the listed prefixes, and is flooded
+    like an advertisement (seen-by extended, sender and seen-by skipped). *)
+
+Definition is_w (a : advert) : bool := match a_path a with [] => true | _ => false end.
+
+Definition is_cidr_route (r : route) : bool := kind_eqb (r_kind r) KCidr.
+
+Definition withdrawn (o : node) (ids : list N) (e : entry) : bool :=
+  kind_eqb (e_kind e) KCidr && (e_origin e =? o) && memN (e_id e) ids.
+
+Definition forward_w (self : node) (a : advert) : advert :=
+  {| a_origin := a_origin a; a_seq := a_seq a; a_routes := a_routes a;
+     a_path := []; a_seenby := a_seenby a ++ [self] |}.
+
+Definition handle_w (s : state) (self from : node) (a : advert) : state * list msg * N :=
+  match get (st_nodes s) self with
+  | None => (s, [], 0)
+  | Some ns =>
+    let o := a_origin a in let sq := a_seq a in
+    if seen_has o sq (ns_seen ns) then (s, [], 0)   (* no touch of SeenAt here *)
+    else
+      let sn := ns_seen ns ++ [{| s_origin := o; s_seq := sq; s_at := st_now s; s_from := from |}] in
+      let with_nodes es := {| st_nodes := set (st_nodes s) self
+                                {| ns_seq := ns_seq ns; ns_entries := es; ns_seen := sn; ns_locals := ns_locals ns |};
+                              st_links := st_links s; st_flight := st_flight s; st_now := st_now s |} in
+      if memN self (a_seenby a) then (with_nodes (ns_entries ns), [], 0)
+      else
+        let es := filter (fun e => negb (withdrawn o (map r_id (a_routes a)) e)) (ns_entries ns) in
+        let fa := forward_w self a in
+        (with_nodes es,
+         map (fun p => {| m_from := self; m_to := p; m_adv := fa |}) (flood_targets s self from (a_seenby fa)), 1)
+  end.
+
+(** WithdrawLocalRoutes: nothing if there is no local CIDR route; the local
+    routes themselves stay configured *)
+Definition withdraw (s : state) (n : node) : state * list msg :=
+  match get (st_nodes s) n with
+  | None => (s, [])
+  | Some ns =>
+    match filter is_cidr_route (ns_locals ns) with
+    | [] => (s, [])
+    | rs =>
+      let sq := ns_seq ns + 1 in
+      let a := {| a_origin := n; a_seq := sq; a_routes := rs; a_path := []; a_seenby := [n] |} in
+      let ns' := {| ns_seq := sq; ns_entries := ns_entries ns; ns_seen := ns_seen ns; ns_locals := ns_locals ns |} in
+      ({| st_nodes := set (st_nodes s) n ns'; st_links := st_links s; st_flight := st_flight s; st_now := st_now s |},
+       map (fun p => {| m_from := n; m_to := p; m_adv := a |}) (neighbours s n))
+    end
+  end.
+
+(* ------------------------------------------------------------------ *)
 (** ** AnnounceLocalRoutes *)
 
 Definition route_ltb (a b : route) : bool :=
@@ -353,6 +410,7 @@ Definition replay (cf : config) (s : state) (self peer : node) : state * list ms
 
 Inductive op :=
 | Announce (n : node)
+| Withdraw (n : node)                    (* WithdrawLocalRoutes (graceful stop of an exit) *)
 | Deliver (i : nat) (dup : bool)
 | Forget (n : node) (o sq : N)           (* seen-cache expiry / eviction of one key, at any point *)
 | Advance (d : N)                        (* time passes; seen-cache cleanup ticks fire *)
@@ -399,9 +457,12 @@ Definition step (cf : config) (s : state) (o : op) : state * list msg * N :=
       | None => (s, [], 2)
       | Some m =>
           let s1 := with_flight s (if dup then st_flight s else remove_nth (st_flight s) i) in
-          let '(s2, out, res) := handle cf s1 (m_to m) (m_from m) (m_adv m) in
+          let '(s2, out, res) := (if is_w (m_adv m) then handle_w s1 (m_to m) (m_from m) (m_adv m)
+                                   else handle cf s1 (m_to m) (m_from m) (m_adv m)) in
           (with_flight s2 (st_flight s2 ++ out), out, res)
       end
+  | Withdraw n =>
+      let '(s', out) := withdraw s n in (with_flight s' (st_flight s' ++ out), out, 2)
   | Forget n o sq =>
       (update_node s n (fun ns => {| ns_seq := ns_seq ns; ns_entries := ns_entries ns;
                                      ns_seen := filter (fun x => negb (seen_key o sq x)) (ns_seen ns);
@@ -659,6 +720,7 @@ Definition digest (n : nat) (cf : config) (agent : bool) (ops : list op) : N :=
 
 (** short constructors for machine-written schedules *)
 Definition A (n : N) := Announce n.
+Definition W (n : N) := Withdraw n.
 Definition D (i : N) := Deliver (N.to_nat i) false.
 Definition DD (i : N) := Deliver (N.to_nat i) true.
 Definition F (n o sq : N) := Forget n o sq.
